@@ -708,3 +708,15 @@ mod tests {
             .expect("`Residual::count_bits` should be accurate");
     }
 }
+
+#[cfg(flacenc_verif)]
+#[doc(hidden)]
+pub mod verif_hooks {
+    pub fn utf8like(val: u64) -> Option<Vec<u8>> {
+        super::encode_to_utf8like(val).ok().map(|v| v.to_vec())
+    }
+
+    pub fn utf8like_size(val: usize) -> usize {
+        super::utf8like_bytesize(val)
+    }
+}
